@@ -85,8 +85,12 @@ def step (s : St) : Ev → St × Res
     if s.closed then (s, .refused)
     else if hasId id s.tbl then (s, .none)
     else if Gen.Session.acceptBacklog ≤ (s.accq.length : Int) then
-      -- the accept backlog is full: the stream is refused and its id remembered as closed (select … default)
-      ({ s with tbl := (id, .tomb) :: s.tbl }, .refused)
+      -- the accept backlog is full (select … default): the stream is refused. Either its id is just remembered as
+      -- closed, or (as the source says) it is registered like an accepted one — minus the queue — to be counted and
+      -- closed from this side by the operation (`SO.recv`), which tells the peer
+      if Gen.Session.refusedStreamClosedActively then
+        ({ s with tbl := (id, .opn) :: s.tbl, pendIncr := s.pendIncr + 1 }, .refused)
+      else ({ s with tbl := (id, .tomb) :: s.tbl }, .refused)
     else ({ s with tbl := (id, .opn) :: s.tbl, accq := s.accq ++ [id], pendIncr := s.pendIncr + 1 }, .ok)
   | .recvIncr =>
     match s.pendIncr with
